@@ -28,6 +28,7 @@ class World:
         self.rg = [True] * NP
         self.grad = [None] * NP          # None | "zero" | "val"
         self.attr = [dict() for _ in range(NM)]
+        self.plain = sg.Tensor(np.array([9.0, 8.0, 7.0, 6.0, 5.0]))
 
     def enabled(self):
         ev = []
@@ -38,6 +39,7 @@ class World:
                 for k in range(NP):
                     ev.append(("set", i, n, "p", k))
                 ev.append(("set", i, n, "none", 0))
+                ev.append(("set", i, n, "t", 0))      # a plain Tensor (a buffer, a detached copy): an attribute, not a registration
             for j in range(i + 1, NM):
                 ev.append(("regm", i, "y", j))
             ev.append(("regp", i, "x", 1))
@@ -52,7 +54,7 @@ class World:
         self.clock += 1
         r = self.reg[i]
         old = r.get(name)
-        if kind == "none":
+        if kind in ("none", "t"):
             if old is not None: del r[name]
             return
         if old is not None and old[0] == kind:
@@ -90,7 +92,7 @@ class World:
         try:
             if e[0] == "set":
                 _, i, name, kind, idx = e
-                val = self.mods[idx] if kind == "m" else (self.pars[idx] if kind == "p" else None)
+                val = self.mods[idx] if kind == "m" else (self.pars[idx] if kind == "p" else (self.plain if kind == "t" else None))
                 setattr(self.mods[i], name, val)
                 self._register(i, name, kind, idx); self.attr[i][name] = (kind, idx)
             elif e[0] == "regm":
@@ -156,7 +158,7 @@ class World:
                 v("stale-registration" if set(got_subs) - set(exp_subs) else "submodule-missing", f"m{i}.submodules() -> {got_subs}, registered {exp_subs}")
             for name, (kind, idx) in self.attr[i].items():
                 cur = getattr(m, name, "<missing>")
-                want = self.mods[idx] if kind == "m" else (self.pars[idx] if kind == "p" else None)
+                want = self.mods[idx] if kind == "m" else (self.pars[idx] if kind == "p" else (self.plain if kind == "t" else None))
                 if cur is not want:
                     v("attribute-value", f"m{i}.{name} is not the object assigned last")
         for k, p in enumerate(self.pars):
@@ -371,7 +373,7 @@ def run(tier, seed):
            "samples": res.samples + seqs[-2:], "exhaustive": res.complete, "depth": res.max_depth, "level_sizes": res.level_sizes,
            "pruned_violating_transitions": res.pruned, "sequential_programs": nseq,
            "rule": f"all histories up to depth {depth} over 3 Modules (m0>m1>m2 nesting only, so no cycles), 3 Parameters (one re-wrapping another's storage), attribute "
-                   "names {x,y}: setattr(module|parameter|None), register_module/register_parameter, train/eval/freeze/unfreeze/"
+                   "names {x,y}: setattr(module|parameter|plain Tensor|None), register_module/register_parameter, train/eval/freeze/unfreeze/"
                    "zero_grad on any node, one backward through all trainable parameters; after every event, for every module as "
                    "root: parameters() identity list (each reachable once; order = registration order, slot-keeping or latest-"
                    "registration both accepted), num_params x3, training flags, requires_grad flags, gradient presence; plus all "
